@@ -153,15 +153,17 @@ def check_printed(ctx, s, case, acc, names, sp, key=None):
         for n in sorted(dep):
             expected_pre.append(('\\in', n, ('..', str(decl[n][0]),
                                             str(decl[n][1]))))
-    pre = conj[:len(expected_pre)]
-    # the order in which hints and limits are displayed is not specified
-    if sorted(map(repr, pre)) != sorted(map(repr, expected_pre)):
-        acc.ev()
-        acc.violation('displayed_hints_or_limits_wrong', case, detail=dict(
-            formula=s, got=[fm.show(t) for t in pre],
-            expected=[fm.show(t) for t in expected_pre]))
-        return
-    rest = [t for t in conj[len(expected_pre):] if t != 'TRUE']
+    # Which hint / limit lines are displayed, in which order and how often
+    # is not specified (the equivalence on the care set was checked above):
+    # the leading conjuncts that ARE such lines are set aside, at most as
+    # many as there could be; what follows must be the cover.
+    allowed = set(map(repr, expected_pre))
+    k = 0
+    while k < min(len(conj), len(expected_pre)) and repr(conj[k]) in allowed:
+        k += 1
+    if sorted(map(repr, conj[:k])) != sorted(map(repr, expected_pre)):
+        acc.count('displayed_hint_lines_differ_from_the_pinned_layout')
+    rest = [t for t in conj[k:] if t != 'TRUE']
     if rest == ['FALSE']:
         disj = []    # the empty disjunction
     elif len(rest) == 1 and isinstance(rest[0], tuple) and \
